@@ -516,6 +516,11 @@ impl<'a> Parser<'a> {
                 continue;
             }
             if self.tokenizer.cur_token.is_question_mark() {
+                // the conditional binds looser than every infix operator: an operand
+                // being parsed for an infix operator ends before the `?`
+                if exec_prec > 0 {
+                    return Ok(lhs);
+                }
                 self.next()?;
                 let a = self.parse_expression()?;
                 self.expect(":")?;
